@@ -121,3 +121,72 @@ func HarnessLockDisciplineFile() {
 	}
 	vAssert(vLocksLeaked() == 0, "c14.lock-leaked")
 }
+
+// C14 with a second thread: one operation of another request (refresh, delete, read) runs
+// at any lock / file-system boundary of a janitor cycle or cache operation.  Afterwards no
+// lock is left held, and every key can still be read and stored (nothing blocks forever).
+func lockLeakInterleaved(mem *MemoryCache[vmeta], file *FileCache[vmeta]) {
+	var c cacheUnderTest = mem
+	if mem == nil {
+		c = file
+	}
+	vClockFreeze(true)
+	now := time.Now()
+	nk := vParam("keys", 2)
+	for i := 0; i < nk; i++ {
+		exp := now.Add(time.Hour)
+		if symChoice(2) == 1 {
+			exp = now.Add(-time.Second)
+		}
+		c.Cache(vKeys[i], &symReader{data: []byte{byte(i), 1}, failAt: -1}, exp, vmeta{Ver: int64(i)})
+	}
+	k2 := vKeys[symChoice(nk)]
+	kind := symChoice(3)
+	vInterpose(func() {
+		switch kind {
+		case 0:
+			c.Cache(k2, &symReader{data: []byte{9}, failAt: -1}, now.Add(time.Hour), vmeta{Ver: 9})
+		case 1:
+			c.Delete(k2)
+		default:
+			c.Get(k2)
+		}
+	}, 1)
+	switch symChoice(4) {
+	case 0:
+		if mem != nil {
+			mem.janitor.cleanExpiredEntries()
+		} else {
+			file.janitor.cleanExpiredEntries()
+		}
+		vReach("clean-expired")
+	case 1:
+		if mem != nil {
+			mem.janitor.evict(1)
+		} else {
+			file.janitor.evict(1)
+		}
+		vReach("evict")
+	case 2:
+		c.Cache(vKeys[symChoice(nk)], &symReader{data: []byte{5}, failAt: -1}, now.Add(time.Hour), vmeta{Ver: 5})
+		vReach("store")
+	default:
+		c.Delete(vKeys[symChoice(nk)])
+		vReach("delete")
+	}
+	vInterpose(nil, 0)
+	if vInterposed() > 0 {
+		vReach("second-thread-ran")
+	}
+	vAssert(vLocksLeaked() == 0 && vThread2LocksLeaked() == 0, "c14.lock-leaked")
+	// liveness afterwards: every key can be read and written (a leaked lock shows as a
+	// deadlock.lock-never-released / deadlock.self-lock violation here)
+	for i := 0; i < nk; i++ {
+		c.Get(vKeys[i])
+		c.Cache(vKeys[i], &symReader{data: []byte{7}, failAt: -1}, now.Add(time.Hour), vmeta{Ver: 7})
+	}
+	vReach("still-live")
+}
+
+func HarnessLockLeakInterleavedMem()  { lockLeakInterleaved(newMem(symRange(1, 2), 1<<30), nil) }
+func HarnessLockLeakInterleavedFile() { lockLeakInterleaved(nil, newFile(symRange(1, 2), 1<<30)) }
